@@ -68,6 +68,21 @@ func propC13(t *rapid.T) {
 			}
 		}
 	}
+	// too-small destinations cut from a larger array (len < size <= cap): still an error, nothing written
+	for _, short := range []int{1, 3, 5, size / 2} {
+		if short <= 0 || short > size {
+			continue
+		}
+		arena := bytes.Repeat([]byte{0x6B}, size+8)
+		if k, err := b.FreezeTo(arena[:size-short]); err == nil {
+			fail("FreezeTo(slice of len %d, cap %d) for a %d-byte image returned (%d, nil)", size-short, len(arena), size, k)
+		}
+		for i := range arena {
+			if arena[i] != 0x6B {
+				fail("FreezeTo into a too-short slice (len %d of %d needed, larger capacity) wrote at offset %d", size-short, size, i)
+			}
+		}
+	}
 	// independent parse of the layout
 	ch, err := spec.DecodeFrozen(fr)
 	if err != nil {
